@@ -484,3 +484,105 @@ pub fn c07_spawn_abort_join() {
 }
 
 pub const _USES: usize = MAX_STEPS;
+
+/// A task with two wake sources (a `select` over two requests in miniature): poll 0 registers the
+/// poll's waker with A and with B.  After A fires, the task no longer waits on B (it dropped that
+/// future) but B's owner — the shell, still holding the lost request — keeps the *stale* registration.
+pub struct TwoSources {
+    pub probe: Arc<Probe>,
+    pub a: Arc<Slot>,
+    pub b: Arc<Slot>,
+    pub ctx: crate::script::Ctx,
+    /// what poll 1 does: 0 nothing (nothing left to wait on), 1 waits on A again, 2 finishes with an effect
+    pub then: u8,
+    pub tag: u8,
+}
+
+impl Drop for TwoSources {
+    fn drop(&mut self) {
+        self.probe.dropped.store(true, std::sync::atomic::Ordering::SeqCst);
+    }
+}
+
+impl std::future::Future for TwoSources {
+    type Output = ();
+    fn poll(self: std::pin::Pin<&mut Self>, cx: &mut std::task::Context<'_>) -> std::task::Poll<()> {
+        use std::sync::atomic::Ordering;
+        let this = self.get_mut();
+        let n = this.probe.polls.load(Ordering::SeqCst);
+        this.probe.polls.store(n + 1, Ordering::SeqCst);
+        match (n, this.then) {
+            (0, _) => {
+                this.a.put(cx.waker().clone());
+                this.b.put(cx.waker().clone());
+                std::task::Poll::Pending
+            }
+            (1, 1) => {
+                this.a.put(cx.waker().clone());
+                std::task::Poll::Pending
+            }
+            (1, 0) => std::task::Poll::Pending,
+            _ => {
+                hooks::send_effect(&this.ctx, this.tag);
+                std::task::Poll::Ready(())
+            }
+        }
+    }
+}
+
+/// THEN: what the task does once A has fired (see `TwoSources::then`); 3 = as 0, and the owner of the
+/// stale registration lets go of it without firing it (case-split: it steers a reference count).
+#[allow(non_snake_case)]
+fn stale_registration_case<const THEN0: u8>() {
+    let THEN: u8 = if THEN0 == 3 { 0 } else { THEN0 };
+    let p = Arc::new(Probe::default());
+    let (a, b) = (Slot::new(), Slot::new());
+    let tag = nd::any_u8();
+    let mut cmd: Cmd = {
+        let (p, a, b) = (p.clone(), a.clone(), b.clone());
+        crux_core::Command::new(move |ctx| TwoSources { probe: p, a, b, ctx, then: if THEN0 == 3 { 0 } else { THEN0 }, tag })
+    };
+    hooks::run_until_settled(&mut cmd);
+    assert!(p.polls() == 1 && hooks::live_tasks(&cmd) == 1 && !cmd.is_done(), "waiting on two sources");
+    a.take().expect("registered with A").wake(); // A fires; B's registration is now stale
+    hooks::run_until_settled(&mut cmd);
+    assert!(p.polls() == 2, "ran again");
+    match THEN {
+        0 => {
+            assert!(p.dropped() && hooks::live_tasks(&cmd) == 0, "a task that waits on nothing any more is discarded, whatever stale registrations of earlier polls survive elsewhere");
+            assert!(cmd.is_done(), "and the command is done");
+            // the owner of the stale registration fires it, or lets go of it, later: harmless
+            if THEN0 == 0 {
+                b.take().expect("stale registration").wake();
+            } else {
+                drop(b.take());
+            }
+            assert!(cmd.is_done() && p.polls() == 2 && hooks::ready_len(&cmd) == 0, "a stale wake-up changes nothing");
+        }
+        1 => {
+            assert!(!p.dropped() && hooks::live_tasks(&cmd) == 1 && !cmd.is_done(), "still waiting on A: kept");
+            a.take().expect("registered with A again").wake();
+            hooks::run_until_settled(&mut cmd);
+            assert!(p.polls() == 3 && p.dropped(), "finished after A fired again");
+            assert!(cmd.effects().next() == Some(tag), "its output is there");
+            assert!(cmd.is_done(), "done");
+        }
+        _ => {
+            assert!(p.dropped() && hooks::live_tasks(&cmd) == 0, "finished");
+            assert!(cmd.effects().next() == Some(tag), "its output is there");
+            assert!(cmd.is_done(), "done although B still holds a stale registration");
+        }
+    }
+    nd_cover!(THEN0 == 0, "nothing left to wait on, stale registration elsewhere fires later");
+    nd_cover!(THEN0 == 3, "nothing left to wait on, stale registration elsewhere released later");
+    nd_cover!(THEN == 1, "waits on the live source again, other registration stale");
+    nd_cover!(THEN == 2, "finishes, stale registration elsewhere");
+    forget((cmd, p, a, b));
+}
+
+#[cfg_attr(kani, kani::proof, kani::unwind(6))]
+#[cfg_attr(kani, kani::stub(core::mem::MaybeUninit::write, crate::common::maybe_uninit_write))]
+pub fn c07_stale_registration() {
+    let t = nd::any_u8();
+    dispatch!(t, stale_registration_case, 0 1 2 3);
+}
